@@ -83,6 +83,10 @@ def ops(kind):
         O["collect_tail"] = lambda X, Y, v: [A.Assign(A.ListE([(V("_"), False), (V(X), False)], True), V(Y))]
         O["append_rebind"] = lambda X, Y, v: [A.OpAssign("+", V(X), A.lst(I(v)))]
         O["concat_self"] = lambda X, Y, v: [A.OpAssign("+", V(X), V(Y))]
+        O["two_empty_slices"] = lambda X, Y, v: [A.Assign(V(X), A.lst(A.RangeIndex(V(Y), I(0), I(0)), A.RangeIndex(V(Y), I(1), I(1))))]
+        O["empty_rest_collects"] = lambda X, Y, v: [A.Assign(A.ListE([(V("_"), False), (V("_"), False), (V("er%d" % v), False)], True), A.lst(I(1), I(2))) if False else
+                                                    A.Declare(A.ListE([(V("era%d" % v), False)], True), A.lst()), A.Declare(A.ListE([(V("erb%d" % v), False)], True), A.lst()),
+                                                    A.Assign(V(X), A.lst(V("era%d" % v), V("erb%d" % v)))]
         O["range_op"] = lambda X, Y, v: [A.Assign(V(X), A.Range(I(0), I(2)))]
         O["range_assign"] = lambda X, Y, v: [A.Assign(A.RangeIndex(V(X), I(0), I(1)), A.lst(I(v)))]
         O["range_assign_from_alias"] = lambda X, Y, v: [A.Assign(A.RangeIndex(V(X), None, I(1)), A.RangeIndex(V(Y), I(0), I(1)))]
